@@ -174,6 +174,8 @@ def replay(case):
 
 def run(tier, seed, rep):
     cases, transitions = disc_space.enumerate_cases(tier, seed, "discretizers")
+    if tier == "quick":  # the k>=4 ordered tables of the quick column space serve C09; here they only cost time
+        cases = [c for c in cases if len(c["cells"]) <= 3 or c["cls"] == "ContinuousDiscretizer"]
     c2, t2 = disc_space.enumerate_cases(tier, seed, "carvers")
     cases += c2
     transitions += t2
